@@ -167,3 +167,5 @@ func replayFile(path string) {
 }
 
 var replayers = map[string]func(prop string, raw json.RawMessage) bool{}
+
+type sessrepGraph = sessrep.Graph
